@@ -6,9 +6,17 @@ numbered cell the whole straight run containing it has that length; where it tur
 ending there have that length.
 
 Key order: the BoolGridFrame(h-1, w-1) edges (horizontal row-major, then vertical row-major); bools.
+
+Large family (shape descriptors ("large", h, w)): boards beyond the reach of base.loops() use the exact frontier enumerator
+slitherlink.enum_loops(), pruned per numbered cell (degree 2 once its own edges are decided; each straight run through it
+compared with the number as soon as the run is closed off on both sides, and cut as soon as it is longer than the number);
+instances: complete number sets of seed loops (every cell whose runs have one common length) and their thinned / altered
+variants, clue-free boards, numbers on the last row / column, and two-digit numbers (runs of 10 and more) on boards with a
+side of 11 and more.
 """
 
 from . import base
+from .slitherlink import enum_loops, edge_ids, vertex_edges, loop_count, all_loops, seed_loops, dense_family, uniq, within_budget
 
 STEP = {"U": (-1, 0), "D": (1, 0), "L": (0, -1), "R": (0, 1)}
 _CACHE = {}
@@ -41,20 +49,141 @@ def _cands(h, w):
     return _CACHE[(h, w)]
 
 
+OLD_PATH_MAX_VERTICES = 20  # boards of the small ladder keep the original oracle (base.loops + filter)
+SOLUTION_CAP = 400000
+_LARGE = {}
+
+
+def _run(E, line, k):
+    """line: the key indices of the consecutive edges of one row / column, k: position of a cell on it (edge j joins the
+    cells j and j+1).  Returns (length of the straight run through cell k as far as decided, whether it is closed off on
+    both sides); length 0 when the line does not run along this row / column through the cell."""
+    n = 0
+    closed = True
+    j = k - 1
+    while j >= 0 and E[line[j]]:
+        n += 1
+        j -= 1
+    if j >= 0 and E[line[j]] is None:
+        closed = False
+    j = k
+    while j < len(line) and E[line[j]]:
+        n += 1
+        j += 1
+    if j < len(line) and E[line[j]] is None:
+        closed = False
+    return n, closed
+
+
+def _checks(h, w, prob):
+    H, V, m = edge_ids(h, w)
+    ve = vertex_edges(h, w)
+    checks = []
+    watches = []
+    for y in range(h):
+        for x in range(w):
+            n = prob[y][x]
+            if n < 1:
+                continue
+            own = [e for e in ve[y * w + x] if e is not None]
+            checks.append((own, lambda E, own=own: sum(1 for e in own if E[e]) == 2))
+            for line, k in (([H(y, xx) for xx in range(w - 1)], x), ([V(yy, x) for yy in range(h - 1)], y)):
+
+                def run_ok(E, line=line, k=k, n=n):
+                    length, closed = _run(E, line, k)
+                    if length == 0:
+                        return True  # no run along this line (so far); the degree check decides whether the cell is visited
+                    return length == n if closed else length <= n
+
+                if line:
+                    watches.append((line, run_ok))
+    return checks, watches
+
+
+def clues_of(h, w, loop):
+    """Complete number set of a loop: every visited cell whose straight runs (one when it goes straight, two when it turns)
+    have one common length gets that length."""
+    H, V, m = edge_ids(h, w)
+    out = {}
+    for y in range(h):
+        for x in range(w):
+            lens = []
+            for line, k in (([H(y, xx) for xx in range(w - 1)], x), ([V(yy, x) for yy in range(h - 1)], y)):
+                n, closed = _run(loop, line, k)
+                if n:
+                    lens.append(n)
+            if lens and len(set(lens)) == 1:
+                out[(y, x)] = lens[0]
+    return out
+
+
+def _large_instances(h, w, thorough):
+    key = (h, w, thorough)
+    if key in _LARGE:
+        return _LARGE[key]
+
+    def prob(clues):
+        return {"height": h, "width": w, "problem": [[clues.get((y, x), 0) for x in range(w)] for y in range(h)]}
+
+    def keep(clues):
+        if enumerable or within_budget(h, w, *_checks(h, w, prob(clues)["problem"])):
+            out.append(prob(clues))
+
+    out = []
+    enumerable = loop_count(h, w) is not None
+    far = (h - 1, w - 1)
+    if enumerable:
+        light = [{}, {far: 1}, {(h - 1, w // 2): max(w - 1, 1)}, {(h // 2, w - 1): max(h - 1, 1)}]
+        if thorough or h == w:
+            light += [{far: 2, (0, 0): 2}, {(h - 1, 0): 1, (0, w - 1): 1}, {(h - 1, x): 2 for x in range(0, w, 2)}, {(y, w - 1): 1 + y % 2 for y in range(h)}]
+        for clues in light if thorough else (light[:6] if h == w else light[:3]):
+            keep(clues)
+    # two-digit numbers: runs of 10 and more along the long side, on the first and on the last line
+    L = max(h, w) - 1
+    if L >= 10:
+        horiz = w > h
+        a = (0, w // 2) if horiz else (h // 2, 0)
+        b = (h - 1, w // 2 - 1) if horiz else (h // 2 - 1, w - 1)
+        c = (h - 1, w - 2) if horiz else (h - 2, w - 1)
+        two = [{a: L}, {b: L}, {a: L - 1}, {b: 10}, {a: L + 1}, {a: L, b: L}, {c: 10}, {a: 10, b: 11}]
+        for clues in two if thorough else two[: 3 if min(h, w) == 1 else 5]:
+            keep(clues)
+    if enumerable:
+        seeds = seed_loops(h, w, 1, longest=thorough)
+    else:
+        seeds = seed_loops(h, w, 2 if thorough else 1)
+    for g in seeds:
+        fam = dense_family(clues_of(h, w, g), h, w, lambda v, dl, c: v + dl if v + dl >= 1 else None, thorough)
+        if not thorough and h != w:
+            fam = fam[:2] + fam[3:5]
+        for clues in fam:
+            keep(clues)
+    out = uniq(out)
+    _LARGE[key] = out
+    return out
+
+
 class Geradeweg(base.Rule):
     name = "geradeweg"
 
     def shapes(self, tier):
         s = [(1, 1), (1, 2), (2, 1), (1, 3), (3, 1), (2, 2), (2, 3), (3, 2), (3, 3)]
+        large = [(5, 5), (8, 8), (3, 11), (11, 3), (2, 12), (12, 2), (1, 12), (12, 1)]
         if tier == "quick":
-            return s + [(3, 4), (4, 3)]
-        return s + [(1, 4), (4, 1), (2, 4), (4, 2), (3, 4), (4, 3), (4, 4), (2, 5), (5, 2), (3, 5), (5, 3)]
+            return s + [(3, 4), (4, 3)] + [("large", h, w) for h, w in large]
+        large += [(6, 6), (7, 7), (4, 7), (7, 4), (5, 6), (6, 5), (10, 10), (6, 9), (9, 6), (4, 12), (12, 4), (3, 12), (12, 3), (2, 15), (15, 2)]
+        s = s + [(1, 4), (4, 1), (2, 4), (4, 2), (3, 4), (4, 3), (4, 4), (2, 5), (5, 2), (3, 5), (5, 3)]
+        return s + [("large", h, w) for h, w in large]
 
     def alphabet(self, shape):
         # 1..3 everywhere (on the small boards 2 and/or 3 exceed the longest possible run); 4 where a run of 4 fits
         return [1, 2, 3] + ([4] if max(shape) >= 5 else [])
 
     def instances(self, shape, cap):
+        if shape[0] == "large":
+            for p in _large_instances(shape[1], shape[2], cap > 1000):
+                yield p
+            return
         h, w = shape
         lays, k = base.layouts(h * w, 0, self.alphabet(shape), cap)
         for cells in lays:
@@ -67,6 +196,18 @@ class Geradeweg(base.Rule):
         return is_sat, base.sols_of(frame)
 
     def readings(self, p):
+        if p["height"] * p["width"] > OLD_PATH_MAX_VERTICES:
+            return [self.readings_large(p)]
+        return self.readings_small(p)
+
+    def readings_large(self, p):
+        h, w = p["height"], p["width"]
+        checks, watches = _checks(h, w, p["problem"])
+        if not checks and loop_count(h, w) is not None:
+            return list(all_loops(h, w))
+        return enum_loops(h, w, checks, watches, cap=SOLUTION_CAP)
+
+    def readings_small(self, p):
         h, w, prob = p["height"], p["width"], p["problem"]
         clues = [((y, x), prob[y][x]) for y in range(h) for x in range(w) if prob[y][x] >= 1]
         out = []
@@ -90,3 +231,30 @@ class Geradeweg(base.Rule):
 
 
 RULE = Geradeweg()
+
+
+def selftest():
+    """The pruned large-board oracle against the original filter oracle on the small ladder: all layouts with <= 2 numbers
+    over 1..4 (<= 3 on the smallest boards), and the dense families of every loop of 4 x 4, 3 x 5, 5 x 3 and every 4th of 4 x 5."""
+    r = RULE
+    n = 0
+    for h, w in [(1, 1), (1, 3), (2, 2), (2, 3), (3, 3), (3, 4), (4, 3), (4, 4), (2, 5), (5, 3)]:
+        lays, k = base.layouts(h * w, 0, [1, 2, 3, 4], 2200)
+        for cells in lays:
+            p = {"height": h, "width": w, "problem": base.grid(cells, h, w)}
+            assert sorted(r.readings_small(p)[0]) == sorted(r.readings_large(p)), p
+            n += 1
+    for h, w, step in [(4, 4, 1), (3, 5, 1), (5, 3, 1), (4, 5, 4)]:
+        for g in base.loops(h, w)[1::step]:
+            full = clues_of(h, w, g)
+            runs = dict(_cands(h, w))[g]
+            assert full == {c: v[0] for c, v in runs.items() if len(set(v)) == 1}
+            for clues in dense_family(full, h, w, lambda v, dl, c: v + dl if v + dl >= 1 else None, True):
+                p = {"height": h, "width": w, "problem": [[clues.get((y, x), 0) for x in range(w)] for y in range(h)]}
+                a = r.readings_small(p)[0]
+                assert sorted(a) == sorted(r.readings_large(p)), p
+                if clues == full:
+                    assert g in a
+                n += 1
+    return n
+
